@@ -87,8 +87,8 @@ c18.append(job("recv-0-24",".","VH_NetlinkReceive",["C18/"],{"maxlen":24,"bufsz"
 c18.append(job("recv-0-64",".","VH_NetlinkReceive",["C18/"],{"maxlen":64,"bufsz":64},T,no_native=True,bounds="Receive: datagram length 0..64"))
 c18.append(job("recv-large",".","VH_NetlinkReceive",["C18/"],{"maxlen":0,"exact":8986,"bufsz":8986},T,no_native=True,bounds="Receive: datagram of 8986 bytes (full audit buffer)"))
 c18.append(job("parser-0-40",".","VH_ParseAuditMessage",["C18/"],{"maxlen":40},Q,bounds="parseNetlinkAuditMessage on every buffer length 0..40 with symbolic contents"))
-c18.append(job("send-2threads",".","VH_NetlinkSendConcurrent",["C18/"],{"threads":2},Q,no_native=True,bounds="2 goroutines x 2 Sends on one client, every interleaving at synchronisation operations; race detection by vector clocks"))
-c18.append(job("send-3threads",".","VH_NetlinkSendConcurrent",["C18/"],{"threads":3},T,no_native=True,bounds="3 goroutines x 2 Sends"))
+c18.append(job("send-2threads",".","VH_NetlinkSendConcurrent",["C18/"],{"threads":2,"preemptions":3},Q,no_native=True,bounds="2 goroutines x 2 Sends on one client, every interleaving at synchronisation operations (incl. a scheduling point inside the sendto stub) with at most 3 preemptions; race detection by vector clocks"))
+c18.append(job("send-3threads",".","VH_NetlinkSendConcurrent",["C18/"],{"threads":3,"preemptions":2},T,no_native=True,bounds="3 goroutines x 2 Sends, at most 2 preemptions"))
 C["C18"]={"jobs":c18,"assumptions":["syscall.Sendto/Recvfrom/Close are harness-side stubs (engine only); NetlinkClient is constructed directly, Socket/Bind are outside","sequence wrap at 2^32 stated as mod-2^32 increase","counterexamples are confirmed in the engine's concrete mode (the native build cannot be given stubbed syscall results)"],
   "outside":["the real sockets and the kernel's echo behaviour on NETLINK_ROUTE/NETLINK_USERSOCK (I/O)","NewNetlinkClient (Socket/Bind/Getsockname)"]}
 
@@ -144,6 +144,8 @@ c20=[job("types-unnamed","auparse","VH_TypeRoundTrip",["C20/"],{"range":1},Q,bou
      job("errno","auparse","VH_ErrnoTables",["C20/"],{},Q,bounds="every entry of the errno tables (exhaustive, concrete)"),
      job("arch-syscalls","auparse","VH_ArchSyscallTables",["C20/"],{},Q,bounds="every architecture and every (arch, syscall) entry (exhaustive, concrete)",max_steps=80000000),
      job("rule-tables","rule","VH_RuleTables",["C20/"],{},Q,bounds="every field/operator/comparison entry, reverse arch and reverse syscall tables (exhaustive, concrete)",max_steps=80000000)]
+c20.append(job("norm-tables","aucoalesce","VH_NormTables",["C20/"],{},Q,bounds="every record type and syscall named in the normalisation tables (table image of the current normalizations.yaml), exhaustive",max_steps=200000000))
+c20.append(job("event-type-stable","aucoalesce","VH_EventTypeStable",["C20/"],{},Q,no_native=True,bounds="GetAuditEventType for a symbolic 16-bit record type: two calls agree, and the result is the same under insertion-order and reverse-order map iteration"))
 C["C20"]={"jobs":c20,"assumptions":["tables are finite data: apart from the 16-bit record-type domain and the UNKNOWN[n] text path the check is a case split per entry, decided by evaluating the real lookups on the real tables (solver only prunes)"],
    "outside":["the YAML decoder (gopkg.in/yaml.v3 is reflection; the normalisation table enters through a table image regenerated natively)"]}
 
@@ -246,5 +248,18 @@ for i,pg in enumerate(PROGS):
 C["C11"]={"jobs":c11,"assumptions":["goroutines are engine threads; a context switch is offered only at synchronisation operations (mutex lock/unlock, sync/atomic, thread start/exit, callback entry); between two such points a thread runs alone, which is sound for assertion violations provided the program is race free, and race freedom is checked on every explored schedule (vector clocks over mutex, atomic, start/join edges)",
    "context bound: schedules with at most the stated number of preemptions","constant clock, timeout far in the future","counterexamples are confirmed in the engine's concrete mode (a native run cannot be forced into a schedule)"],
    "outside":["weak-memory effects below Go's happens-before model","more threads/operations/preemptions than stated","the randomly scheduled long runs under the race detector mentioned in the quantifier (sampling; not built)"]}
+
+COAL_ASSUME=["the normalisation tables come from a table image regenerated natively from the current normalizations.yaml on every run (the YAML decoder itself is trusted)",
+  "messages are built by a harness-side constructor with pre-parsed Data()/Tags() (C09) or through the real Parse with concrete text (C15)","field values are distinct concrete tokens (they are only moved, never inspected); the st_mode of the selected PATH record is symbolic (all 2^16 values)"]
+c09=[job("file-object","aucoalesce","VH_FileObject",["C09/"],{"nsys":3,"maxpaths":2},Q,bounds="SYSCALL (open|rename|unlink) + 1..2 PATH records, the selected one with a symbolic 16-bit st_mode (all 65536 values) and nametype NORMAL|CREATE|DELETE, the other PARENT"),
+     job("file-object-5sys-3paths","aucoalesce","VH_FileObject",["C09/"],{"nsys":5,"maxpaths":3},T,bounds="5 syscalls (incl. mknod, mount) + 1..3 PATH records, symbolic st_mode"),
+     job("single-record","aucoalesce","VH_Conservation",["C09/"],{"shape":0,"named":1},T,bounds="one record of 6 types with every subset of a 16-key pool"),
+     job("single-record-anytype","aucoalesce","VH_Conservation",["C09/"],{"shape":0,"named":0},T,bounds="one record of a symbolic 16-bit type with every subset of the key pool",max_paths=400000),
+     job("groups-2extra","aucoalesce","VH_Conservation",["C09/"],{"shape":1,"maxextra":2,"execve_extra":1},Q,bounds="SYSCALL first / other record first / no SYSCALL, plus 0..2 further records from {PATH, EXECVE, SOCKADDR, CWD/PROCTITLE/AVC/BPRM_FCAPS with optional key collision, a record whose Data() fails}, in any order"),
+     job("groups-3extra","aucoalesce","VH_Conservation",["C09/"],{"shape":1,"maxextra":3,"execve_extra":1},T,bounds="as above with 0..3 further records")]
+C["C09"]={"jobs":c09,"assumptions":COAL_ASSUME+["any non-empty Warnings excuses a lost field (which wording 'names the problem' is not for the check to decide)","at most one EXECVE and one SOCKADDR record per group"],
+  "outside":["groups with more than 4-5 records","the regex tokenizer (C05/C12)","ECS fields"]}
+c15=[job("repeatable","aucoalesce","VH_Repeatable",["C15/"],{},Q,bounds="four concrete groups (execve with PATH/CWD/EXECVE, failed connect with SOCKADDR/PROCTITLE, USER_LOGIN, AVC+SYSCALL) through the real Parse: Data/Tags snapshots before and after, second coalesce equal, earlier event unchanged by a later coalesce")]
+C["C15"]={"jobs":c15,"assumptions":COAL_ASSUME,"outside":["arbitrary message text (C05 covers the parser's totality)","concurrent coalescing and ID resolution (planned)","ResolveIDs against real user databases"]}
 json.dump(C,open('/verif/checks.json','w'),indent=1)
 print({k:len(v["jobs"]) for k,v in C.items()})
